@@ -13,10 +13,11 @@ slides it and renews the retry budget, a stale ACK changes nothing, a retransmit
 re-acknowledged (so a sender whose ACK was lost can go on), an accepted block renews the receiver's budget.
 
 **Closed system.** `netRun` (`Model/Net.lean`) connects the two models through FIFO queues with a fault
-schedule. That every schedule with fewer than `MAX_RETRIES` losses ends with a byte-identical copy is
-*not* proved in general: it is `c04_closed_loop_partial` below (fault-free case, lock-step window), the
-property is therefore claimed with the open-system theorems plus exhaustive enumeration of fault
-placements against the real workers in the same closed loop (see DESIGN.md).
+schedule. The fault-free case is proved for every file, block size and window size
+(`c14_fault_free_transfer` in `Props/C14.lean`). That every schedule with fewer than `MAX_RETRIES`
+losses ends with a byte-identical copy is *not* proved: `c04_closed_loop_partial` below is only an
+anchor; the faulty schedules are enumerated against the real workers in the same closed loop
+(see DESIGN.md).
 -/
 namespace Tftp
 
